@@ -98,7 +98,13 @@ def execute(schedule):
             k = kinds[mid]
             cs = msgs.g_controls(rng) if rng.random() < 0.3 else []
             code = rng.choice([0, 0, 49, 14])
-            if k == 3 and ev[1] in ("entry", "ref"):
+            if k == 3 and ev[1].startswith("bigentry"):
+                size = int(ev[1].split(":")[1])
+                o = [4, b"cn=photo", [[b"jpegPhoto", [bytes([ev[2] & 0xFF]) * size]]]]
+                call = [S_ENTRY, mid, o[1], o[2], []]
+                op = o
+                cs = []
+            elif k == 3 and ev[1] in ("entry", "ref"):
                 if ev[1] == "entry":
                     o = msgs.g_op(rng, 4)
                     call = [S_ENTRY, mid, o[1], o[2], cs]
@@ -198,7 +204,7 @@ class C11(SessionProp):
         "seeded joint histories (10-60 events) of a real LDAPClient and LDAPServer joined by two byte pipes: client "
         "requests (bind / extended / search, pipelined, incl. calls the session refuses), server responses of the "
         "matching kind to requests it has received (entries, references, final responses, SASL-in-progress binds), "
-        "deliveries of 1,2,3,7,20,64 or all pending octets in either direction at any time, an occasional unbind; both "
+        "corpus: a search entry of 256-300 KiB delivered in 3-6 parts; deliveries of 1,2,3,7,20,64 or all pending octets in either direction at any time, an occasional unbind; both "
         "sides' concrete call/delivery histories are replayed on the extracted model; non-trivial = 10+ events"
     )
 
@@ -206,7 +212,14 @@ class C11(SessionProp):
         return [{"schedule": gen_schedule(rng, rng.randint(10, 60))} for _ in range(n)]
 
     def corpus(self):
-        return []
+        # one message of 256 KiB and more, handed over in three and more deliveries, between ordinary traffic
+        out = []
+        for size, chunk in ((262100, 100000), (262144, 90000), (300000, 100000), (300000, 65536), (270000, 262143)):
+            sch = [["c", "search", 7], ["d", "c2s", None, 0], ["s", f"bigentry:{size}", 5], ["c", "ext", 11]]
+            sch += [["d", "s2c", chunk, 0] for _ in range(size // chunk + 2)]
+            sch += [["d", "c2s", None, 0], ["s", "final", 9], ["s", "final", 10], ["d", "s2c", None, 0], ["d", "c2s", None, 0], ["d", "s2c", None, 0]]
+            out.append({"schedule": sch})
+        return out
 
     def _run(self, c):
         if "_res" not in c:
